@@ -306,3 +306,38 @@ def dependents_book(ctx: Ctx):
                              'construction and removals to completion only')
     if n < 2:
         raise AnalysisError(f'fewer than two writers of {PT} found')
+
+
+@rule('C17.RELEASE-COVERS-ALL-STORES', ['C17'])
+def release_covers_all_stores(ctx: Ctx):
+    """Everything a runner keeps per task is given up again by the runner itself: each attribute of a Runner that receives
+    keyed entries (`self.<f>[k] = v`) or queued items outside __init__ loses them again in wait() or remove_results() - not
+    only in close().  A side table of results (pickled copies, pre-computed hand-overs) that remove_results() does not know
+    about keeps every intermediate result alive until the end of the run."""
+    n = 0
+    for c in ctx.P.subclasses(roles.RUNNER):
+        stored: dict[str, list] = {}
+        for m in c.methods.values():
+            if m.name == '__init__':
+                continue
+            for f in [m] + list(m.nested.values()):
+                for w in field_writes(f):
+                    if w.kind in ('item_store', 'mutcall:append', 'mutcall:add', 'mutcall:setdefault', 'mutcall:update', 'mutcall:extend'):
+                        stored.setdefault(w.field, []).append(w)
+        for fld, ws in stored.items():
+            n += 1
+            removed = []
+            for x in ctx.P.mro(c):
+                for mname in ('wait', 'remove_results'):
+                    m = x.methods.get(mname)
+                    if m is None:
+                        continue
+                    for f in [m] + list(m.nested.values()):
+                        removed += [w for w in field_writes(f) if w.field == fld and w.kind in ('item_delete', 'mutcall:pop', 'mutcall:popleft', 'mutcall:remove',
+                                                                                                 'mutcall:discard', 'mutcall:clear')]
+            ok = bool(removed)
+            yield ctx.ob('C17.RELEASE-COVERS-ALL-STORES', ok, ws[0].fn, ws[0].node, f'{c.name}.{fld}: entries stored are removed again in wait() / remove_results()',
+                         '' if ok else f'`{src(ws[0].node)[:60]}` keeps entries in {c.name}.{fld} that neither wait() nor remove_results() ever removes: '
+                         'what is stored there outlives the last dependent', construct=f'{c.name}.{fld}')
+    if n == 0:
+        raise AnalysisError('no keyed stores found in the runners')
